@@ -248,12 +248,12 @@ contract(SCH + "._Search", params=dict(self=SCHT, edb=EDBT, tk=TOKT), returns=RE
                                ("bcat_high", ["b2i(gq)", "it + 1", L2]), ("bcat_low", ["b2i(gq)", "it + 1", L2])])},
          no_runtime=True, props=["C01", "C02", "C07"])
 
-contract(SCH + "._Gen", params=dict(self=SCHT), returns=KEYT,
+contract(SCH + "._Gen", modifies_ghost=["rng_n"], params=dict(self=SCHT), returns=KEYT,
          ensures=["len(result.K1) == self.config.param_k", "len(result.K2) == self.config.param_k"], no_runtime=True, props=["C01", "C03"])
 for m_ in ("KeyGen", "EDBSetup", "TokenGen", "Search"):
     inline(SCH + "." + m_)
 # C01 / C02 for SSE-2: verified client code over the contracts of _Enc, _Trap, _Search (public wrappers inlined)
-contract("ghost:sse2_search_correct", params=dict(sse=SCHT, key=KEYT, database=DBT, keyword=TBytes), returns=REST,
+contract("ghost:sse2_search_correct", modifies_ghost=["rng_n"], params=dict(sse=SCHT, key=KEYT, database=DBT, keyword=TBytes), returns=REST,
          body="""def sse2_search_correct(sse, key, database, keyword):
     gK1 = key.K1
     gDB = database
